@@ -10,6 +10,10 @@
        the extracted UnsatCoreBuilder::minimize: full = 1 (:print-cores-full) or 0; current = the current assertions,
        bits = TermNames::contains of each (0/1, same length); targets = allTerms (full) / namedTerms (named).
        Answer:  ok <result>|   or   missing <l>
+   core <undef>|<ders>|<leafmasks>|<parts>|<full>|<minCore>|<namesEmpty>|<contains>
+       the extracted UnsatCoreBuilder::buildBody up to partitionNamedTerms.  ders: entries c:t:p1,p2,.. separated by ';'
+       (t = clause_type as integer 0..5); leafmasks: c:b1,b2,..; parts: t:i in map order; contains: t:b.
+       Answer:  ok <leaves>|<allTerms>|<named>|<hidden>    (named/hidden empty in full mode)   or   none
 *)
 open Core_model
 
@@ -20,6 +24,42 @@ let ints s = if String.trim s = "" then [] else List.map (fun x -> int_of_string
 let show l = String.concat "," (List.map string_of_int l)
 
 exception Missing of int list
+
+let rec pos_of_int n = if n <= 1 then XH else if n land 1 = 1 then XI (pos_of_int (n lsr 1)) else XO (pos_of_int (n lsr 1))
+let n_of_int n = if n = 0 then N0 else Npos (pos_of_int n)
+let rec int_of_pos = function XH -> 1 | XO p -> 2 * int_of_pos p | XI p -> 2 * int_of_pos p + 1
+let int_of_n = function N0 -> 0 | Npos p -> int_of_pos p
+
+let entries s = if String.trim s = "" then [] else String.split_on_char ';' s
+let ctype_of_int = function 0 -> CLA_ORIG | 1 -> CLA_LEARNT | 2 -> CLA_THEORY | 3 -> CLA_DERIVED | 4 -> CLA_ASSUMPTION | 5 -> CLA_SPLIT
+  | _ -> failwith "bad clause type"
+
+let handle_core rest =
+  match String.split_on_char '|' rest with
+  | [undef; ders; lm; parts; full; minc; nempty; cont] ->
+      let p = List.map (fun e -> match String.split_on_char ':' e with
+          | [c; t; ps] -> (n_of_int (int_of_string c), { d_type = ctype_of_int (int_of_string t); d_chain = List.map n_of_int (ints ps) })
+          | _ -> failwith "bad der") (entries ders) in
+      let lmt = List.map (fun e -> match String.split_on_char ':' e with
+          | [c; bs] -> (int_of_string c, List.map nat_of_int (ints bs)) | _ -> failwith "bad leaf mask") (entries lm) in
+      let cmask c = (match List.assoc_opt (int_of_n c) lmt with Some m -> m | None -> []) in
+      let pm = List.map (fun e -> match String.split_on_char ':' e with
+          | [t; i] -> (n_of_int (int_of_string t), nat_of_int (int_of_string i)) | _ -> failwith "bad part") (entries parts) in
+      let ct = List.map (fun e -> match String.split_on_char ':' e with
+          | [t; b] -> (int_of_string t, String.trim b = "1") | _ -> failwith "bad contains") (entries cont) in
+      let contains t = (match List.assoc_opt (int_of_n t) ct with Some b -> b | None -> false) in
+      let b x = String.trim x = "1" in
+      let shown l = show (List.map int_of_n l) in
+      let und = n_of_int (int_of_string (String.trim undef)) in
+      (match computeClauses und p with
+       | None -> print_endline "none"
+       | Some leaves ->
+           (match buildCore (b full) (b minc) (b nempty) contains cmask pm und p with
+            | None -> print_endline "none"
+            | Some (FullCore all) -> Printf.printf "ok %s|%s||\n" (shown leaves) (shown all)
+            | Some (NamedCore (nm, hd)) ->
+                Printf.printf "ok %s|%s|%s|%s\n" (shown leaves) (shown (mapClausesToTerms cmask pm leaves)) (shown nm) (shown hd)))
+  | _ -> print_endline "bad"
 
 let handle_min rest =
   match String.split_on_char '|' rest with
@@ -72,6 +112,7 @@ let () =
           (match cmd with
            | "min" -> handle_min rest
            | "mz" -> handle_mz rest
+           | "core" -> handle_core rest
            | _ -> print_endline "bad")
       | None -> print_endline "bad"
     with Failure m -> print_endline ("bad " ^ m));
